@@ -3,6 +3,8 @@ import ParryModel.C02.Model
 import ParryModel.C03.Lemmas
 import ParryModel.C03.Theorems
 import ParryModel.C02.Theorems2
+import ParryModel.C02.Theorems3
+import ParryModel.C02.Theorems4
 /-!
 # C02 property theorems for the closed forms: contacts are self-consistent certificates and the four overlap
 verdicts agree.
